@@ -174,6 +174,10 @@ func Run(t *testing.T, w World, opt Options) (res Result) {
 				res.PanicStacks = append(res.PanicStacks, fmt.Sprintf("T%d %s: %v\n%s", tk.ID, tk.Role, tk.Panic, tk.Stack))
 			}
 		}
+		if fz, ok := w.(interface{ Freeze() }); ok {
+			fz.Freeze()
+		}
+		d.teardown()
 	})
 	return
 }
@@ -194,6 +198,8 @@ func (d *driver) loop(res *Result) *Violation {
 		if v := d.w.Check(); v != nil {
 			return v
 		}
+		// Check may have injected a fault that started a harness task: let it reach its first yield
+		synctest.Wait()
 		if d.w.Done() {
 			return d.w.Final()
 		}
@@ -255,6 +261,62 @@ func (d *driver) loop(res *Result) *Violation {
 			}
 			d.tr(fmt.Sprintf("%d TM %s %s", step, c.label, c.timer.Owner))
 			rt.FireTimer(c.label)
+		}
+	}
+}
+
+// Teardowner is implemented by worlds that can shut the code under test down after the verdict,
+// so that its goroutines exit instead of staying blocked (and leaking) for the worker's lifetime.
+type Teardowner interface {
+	Teardown()
+}
+
+// teardown runs after the verdict and the hash are fixed; nothing it does is judged or recorded.
+func (d *driver) teardown() {
+	td, ok := d.w.(Teardowner)
+	if !ok {
+		return
+	}
+	defer func() { recover() }()
+	td.Teardown()
+	r := simhook.NewRand(1)
+	for i := 0; i < 6000; i++ {
+		synctest.Wait()
+		alive := false
+		for _, t := range d.rt.Tasks() {
+			if t.State != simhook.StDead {
+				alive = true
+				break
+			}
+		}
+		if !alive {
+			return
+		}
+		var cands []cand
+		for _, t := range d.rt.Parked() {
+			cands = append(cands, cand{task: t})
+		}
+		for _, e := range d.rt.Events() {
+			if e.At.IsZero() {
+				cands = append(cands, cand{label: e.Label, ev: e})
+			}
+		}
+		if len(cands) == 0 {
+			tms := d.rt.Timers()
+			if len(tms) == 0 || i > 3000 {
+				return
+			}
+			if dt := time.Until(tms[0].Due); dt > 0 {
+				time.Sleep(dt)
+			}
+			d.rt.FireTimer(tms[0].Label)
+			continue
+		}
+		c := cands[r.Intn(len(cands))]
+		if c.task != nil {
+			d.rt.Release(c.task)
+		} else if e := d.rt.TakeEvent(c.label); e != nil {
+			e.Fn()
 		}
 	}
 }
